@@ -182,6 +182,24 @@ def rule_inputs(model: Model, tier: str):
                     out.append(((k, [a_, ("Negation", b_)]), f"{k}<{ck},-{ck} different parameters>"))
                     out.append(((k, [a_, ("Reciprocal", b_)]), f"{k}<{ck},1/{ck} different parameters>"))
                     out.append(((k, [("Negation", a_), b_, nm.var()]), f"{k}<-{ck},{ck} different parameters>"))
+            # groups of one (class, parameter) in which a member REPEATS next to a different member, in
+            # every order (rules that group children and treat repeats specially must keep the others)
+            for ck in kinds:
+                if ck in spec.LEAF:
+                    continue
+                par = {"NthPower": (2, 3), "NthRoot": (2, 3), "Exponential": (2,), "Logarithm": (2,)}.get(ck, (None,))
+                for p_ in par:
+                    va, vb = nm.var(), nm.var()
+                    mk = (lambda v: (ck, v) if p_ is None else (ck, v, p_))
+                    if ck in spec.BINARY:
+                        vc = nm.var()
+                        mk = (lambda v: (ck, v, vc))
+                    elif ck in spec.NARY:
+                        vc = nm.var()
+                        mk = (lambda v: (ck, [v, vc]))
+                    a_, b_ = mk(va), mk(vb)
+                    for kids in ([a_, b_, a_], [a_, a_, b_], [b_, a_, a_], [a_, b_, a_, b_], [a_, nm.var(), b_, a_]):
+                        out.append(((k, kids), f"{k}<{ck} group with a repeated and a different member>"))
             # arities 4 and 5: a deterministic sample of child-class combinations
             import random
             rng = random.Random(20260927)
